@@ -213,7 +213,7 @@ def run(chk, model_ok=True):
     # never sends a request in clear
     from props import c13
     n_cli = 0
-    for key, script, r, why in c13.client_cases(rng, 12 if quick else 300):
+    for key, script, r, why in c13.client_cases(rng, 24 if quick else 480):
         n_cli += 1
         if why and any(w in why for w in ("not encrypted", "priv flag", "carries user", "failed with")):
             fail(f"{key}: {why}", f"# client {key}")
